@@ -73,6 +73,7 @@ fn filt_name(f: StmFilter) -> &'static str {
         StmFilter::FlateStored => "flate_stored",
         StmFilter::AsciiHex => "ascii_hex",
         StmFilter::Lzw => "lzw",
+        StmFilter::HexFlate => "hex_flate",
     }
 }
 fn filt_from(s: &str) -> StmFilter {
@@ -80,6 +81,7 @@ fn filt_from(s: &str) -> StmFilter {
         "flate_stored" => StmFilter::FlateStored,
         "ascii_hex" => StmFilter::AsciiHex,
         "lzw" => StmFilter::Lzw,
+        "hex_flate" => StmFilter::HexFlate,
         _ => StmFilter::None,
     }
 }
@@ -323,7 +325,7 @@ pub fn gen_history(rng: &mut Rng, tier: Tier) -> History {
     let nvals = if long_small { 3 } else { 3 + rng.below(10) as u32 };
     let max_revs = if tier == Tier::Quick { 4 } else { 8 };
     let n_revs = if long_small { 10 + rng.usize(14) } else { 1 + rng.usize(max_revs) };
-    let filters = [StmFilter::None, StmFilter::FlateStored, StmFilter::AsciiHex, StmFilter::Lzw, StmFilter::FlateStored];
+    let filters = [StmFilter::None, StmFilter::FlateStored, StmFilter::AsciiHex, StmFilter::Lzw, StmFilter::FlateStored, StmFilter::HexFlate];
     // swarm: which writer styles are enabled in this run
     let allow_stream = rng.chance(3, 4);
     let allow_classic = !allow_stream || rng.chance(3, 4);
@@ -700,7 +702,7 @@ impl Check for C02 {
         CheckInfo {
             id: "C02",
             level: "exploration",
-            rule: "one run = one update history of 1-4 (quick) / 1-8 (thorough) revisions over 3-12 value object numbers written by the harness's independent writer (classic tables with arbitrary subsection splits; xref streams with arbitrary /Index splits, /W widths incl. width-0 type field, optional filter (stored-block Flate, ASCIIHex, LZW) and predictor (TIFF 2, PNG 10-15); objects direct, in one or two object streams with or without filter and trailing white space, freed with generation+1, reused; /Size growth; moving /Root; trailers with and without /Info; one history in five written RC4-encrypted (revision 2, 3 or 4 of the standard security handler, empty user password) by the harness's own MD5/RC4 implementation, which the self-test checks against the /O and /U entries of the two RC4 corpus files), opened after every append (every crash point that keeps whole revisions) strict+uncached and tolerant+cached; every number below /Size is resolved and compared with the model 'newest mention wins'; the trailer (/Root, /ID, /Size, /Info, presence of /Prev) must be that of the newest section. Non-trivial = some revision overrides an earlier mention; distinct = hash of the history",
+            rule: "one run = one update history of 1-4 (quick) / 1-8 (thorough) revisions over 3-12 value object numbers written by the harness's independent writer (classic tables with arbitrary subsection splits; xref streams with arbitrary /Index splits, /W widths incl. width-0 type field, optional filter (stored-block Flate, ASCIIHex, LZW, ASCIIHex over Flate with /DecodeParms [null <<..>>]) and predictor (TIFF 2, PNG 10-15); objects direct, in one or two object streams with or without filter and trailing white space, freed with generation+1, reused; /Size growth; moving /Root; trailers with and without /Info; one history in five written RC4-encrypted (revision 2, 3 or 4 of the standard security handler, empty user password) by the harness's own MD5/RC4 implementation, which the self-test checks against the /O and /U entries of the two RC4 corpus files), opened after every append (every crash point that keeps whole revisions) strict+uncached and tolerant+cached; every number below /Size is resolved and compared with the model 'newest mention wins'; the trailer (/Root, /ID, /Size, /Info, presence of /Prev) must be that of the newest section. Non-trivial = some revision overrides an earlier mention; distinct = hash of the history",
             assumptions: vec![
                 "trusted base: the harness's writer; every written file is cross-checked by the harness's strict reader (offsets, section chain, newest-first merge) before it is used, disagreement is a harness error".into(),
                 "crash points are revision boundaries; a torn final append, hybrid-reference files and sections violating the generation rules are outside the statement".into(),
